@@ -131,6 +131,8 @@ type schedCase struct {
 	ID    int        `json:"id"` // selects the real functions that stand for the API classes (0: position in the batch)
 	Prog  [][]string `json:"prog"`
 	Sched []int      `json:"sched"`
+	Gran  string     `json:"gran"` // "hook": the gates are the call boundaries and the designated user hook of a call
+	Op    string     `json:"op"`   // if set: every "hook" call of the schedule is this op (every op against itself)
 }
 
 type heldBuf struct {
@@ -140,7 +142,16 @@ type heldBuf struct {
 	op   string
 }
 
-func pkgOf(op string) string { return op[:strings.IndexByte(op, '.')] }
+// pkgOf: "oj.JSON(struct)" -> "oj"; "hook[jm]:oj/JSON" -> "oj"; "hook[rf]:Recomposer.Recompose" -> "Recomposer"
+func pkgOf(op string) string {
+	if i := strings.IndexByte(op, ':'); i >= 0 && strings.HasSuffix(op[:i], "]") {
+		op = op[i+1:]
+	}
+	if i := strings.IndexAny(op, "./"); i >= 0 {
+		return op[:i]
+	}
+	return op
+}
 
 // dropOwn: a caller stops looking at a buffer once it calls the same package again itself - the
 // buffer-returning APIs document that the caller's own next call may reuse the buffer, so from then on
@@ -179,11 +190,15 @@ func runSchedule(id int, sc schedCase, ref map[string]string) map[string]any {
 			switch {
 			case strings.HasSuffix(point, ".get"):
 				evs = append(evs, Event{E: "get", G: g, I: instIDs.of(ptrOf(inst)), P: poolOf(point)})
-				park(g, point)
+				if sc.Gran != "hook" {
+					park(g, point)
+				}
 			case strings.HasSuffix(point, ".putting"): // just before pool.Put: the instance is released
 				evs = append(evs, Event{E: "put", G: g, I: instIDs.of(ptrOf(inst)), P: poolOf(point)})
 			case strings.HasSuffix(point, ".put"): // just after pool.Put: scheduling gate only
-				park(g, point)
+				if sc.Gran != "hook" {
+					park(g, point)
+				}
 			case strings.HasSuffix(point, ".locked"):
 				evs = append(evs, Event{E: "lock", G: g, M: strings.Split(point, ".")[0]})
 			case strings.HasSuffix(point, ".fill"):
@@ -194,6 +209,29 @@ func runSchedule(id int, sc schedCase, ref map[string]string) map[string]any {
 		})
 		defer installHooks(nil)
 	}
+	// user hooks (harness/cmd/conc/r7hookops.go): the designated invocation of the running call is a scheduling gate - the
+	// goroutine parks INSIDE user code; bytes handed to the hook are held by it (hand) and re-read after the gate (look)
+	hookSeen := make([]int, n+1)
+	hookAt := make([]int, n+1)
+	curOp := make([]string, n+1)
+	curCall := make([]int, n+1)
+	hookMode = hookSched
+	schedHook = func(handed []byte) func() {
+		g := cur
+		hookSeen[g]++
+		if handed != nil {
+			evs = append(evs, Event{E: "hand", G: g, C: 1000 + curCall[g], Op: curOp[g], Res: short(string(handed)), Ref: bufID(bufIDs, handed)})
+		}
+		if hookSeen[g] == hookAt[g] && (sc.Gran == "hook" || sc.Gran == "gate") {
+			park(g, "hook")
+		}
+		if handed == nil {
+			return func() {}
+		}
+		evs = append(evs, Event{E: "look", G: g, C: 1000 + curCall[g], Now: short(string(handed))})
+		return func() { evs = append(evs, Event{E: "drop", G: g, C: 1000 + curCall[g]}) }
+	}
+	defer func() { schedHook, hookMode = nil, hookRef }()
 	for g := 1; g <= n; g++ {
 		resume[g] = make(chan struct{})
 		go func(g int) {
@@ -201,7 +239,26 @@ func runSchedule(id int, sc schedCase, ref map[string]string) map[string]any {
 				park(g, "idle")
 				cands := opsOfClass(cls)
 				op := cands[(id+g*7+c*3)%len(cands)]
+				if cls == "hook" {
+					op = hookOpFor(cands, id, g, c)
+				}
 				arg := (g*5 + c + id) % argSpace
+				if cls == "hook" && sc.Op != "" {
+					if op = opByName(sc.Op); op == nil {
+						fmt.Fprintln(os.Stderr, "unknown op in schedule:", sc.Op)
+						os.Exit(2)
+					}
+					// an op against itself: the two largest depth classes (500 and 1000) / the slow and the re-entrant
+					// behaviours, sizes and shapes still rotate with the schedule
+					arg = arg | 2 | (g % 2)
+				}
+				// which hook invocation of this call is the gate: mostly the first; for deep data mostly the third (the last
+				// of the three Simplifiers sits just above the leaf, so the call is parked at its full depth)
+				at := []int{1, 1, 2, 1}[(id/7+c)%4]
+				if strings.HasPrefix(op.Name, "deep[") {
+					at = []int{3, 3, 2, 1}[(id/7+c)%4]
+				}
+				hookSeen[g], hookAt[g], curOp[g], curCall[g] = 0, at, op.Name, c+1
 				held = dropOwn(held, g, op.Name, func(e Event) { evs = append(evs, e) })
 				res, buf := runOp(op, arg)
 				evs = append(evs, Event{E: "ret", G: g, C: c + 1, Op: op.Name, Cls: cls, Res: short(res),
@@ -238,6 +295,33 @@ func runSchedule(id int, sc schedCase, ref map[string]string) map[string]any {
 		}
 	}
 	return map[string]any{"id": id, "mode": "sched", "n": n, "ev": evs}
+}
+
+// hookOpFor chooses the real function for a "hook" call of a schedule.  Package-level scratch is shared by calls that run
+// the SAME code: every op against itself is enumerated by props/C08.py (schedule field "op"); of the other schedules two
+// thirds stay inside one family (same hook interface / deep data, different entry points) and one third rotates over the
+// whole class.
+func hookOpFor(cands []*Op, id, g, c int) *Op {
+	switch id % 3 {
+	case 0, 1:
+		fams := []string{}
+		seen := map[string]bool{}
+		for _, o := range cands {
+			if f := o.Name[:strings.IndexByte(o.Name, ':')]; !seen[f] {
+				seen[f] = true
+				fams = append(fams, f)
+			}
+		}
+		fam := fams[(id-id/3)%len(fams)]
+		var in []*Op
+		for _, o := range cands {
+			if strings.HasPrefix(o.Name, fam+":") {
+				in = append(in, o)
+			}
+		}
+		return in[(id/len(fams)+g*5+c*3)%len(in)]
+	}
+	return cands[(id+g*7+c*3)%len(cands)]
 }
 
 func cmdSched(args []string) {
@@ -327,6 +411,12 @@ func runFree(run, n, m int, seed int64, ref map[string]string, menu []*Op, argLi
 		go func(g int) {
 			defer wg.Done()
 			goids.Store(goid(), g)
+			fc := &freeCtx{g: g, bufIDs: bufIDs, log: func(e Event) {
+				e.n = atomic.AddInt64(&seq, 1)
+				per[g] = append(per[g], e)
+			}}
+			freeCtxs.Store(goid(), fc)
+			defer freeCtxs.Delete(goid())
 			rng := rand.New(rand.NewSource(seed*1000003 + int64(run)*7919 + int64(g)))
 			var mine, pinned []*heldBuf // pinned: every buffer ever handed out stays referenced, so its address is never reused
 			<-start
@@ -340,6 +430,7 @@ func runFree(run, n, m int, seed int64, ref map[string]string, menu []*Op, argLi
 					e.n = atomic.AddInt64(&seq, 1)
 					per[g] = append(per[g], e)
 				})
+				fc.c, fc.op = c, op.Name
 				res, buf := runOp(op, arg)
 				per[g] = append(per[g], Event{E: "ret", G: g, C: c, Op: op.Name, Cls: op.Class, Res: short(res),
 					Seq: ref[op.Name+"|"+strconv.Itoa(arg)], Ref: bufID(bufIDs, buf), n: atomic.AddInt64(&seq, 1)})
@@ -386,7 +477,10 @@ func cmdFree(args []string) {
 	only := fs.String("only", "", "restrict the menu to ops whose name contains one of these comma separated texts")
 	argsFlag := fs.String("args", "", "restrict the arguments to this comma separated list (option pairs chosen by TLC)")
 	procs := fs.Int("procs", 0, "GOMAXPROCS (0: default); few Ps make goroutines share the per-P pool slots")
+	skip := fs.String("skip", "", "leave out ops whose name contains one of these comma separated texts")
+	pick := fs.Int("pick", 0, "if > 0: every run uses only this many consecutive ops of the menu (run r starts at op (r-1)*pick + seed): every op against itself")
 	_ = fs.Parse(args)
+	hookMode = hookFree
 	if *procs > 0 {
 		runtime.GOMAXPROCS(*procs)
 	}
@@ -395,9 +489,14 @@ func cmdFree(args []string) {
 	var menu []*Op
 	for i := range ops {
 		keep := *only == ""
-		for _, t := range strings.Split(*only, ",") {
-			if t != "" && strings.Contains(ops[i].Name, t) {
+		for _, t := range strings.Split(*only, ",") { // "=name": that op exactly
+			if t != "" && ((t[0] == '=' && ops[i].Name == t[1:]) || (t[0] != '=' && strings.Contains(ops[i].Name, t))) {
 				keep = true
+			}
+		}
+		for _, t := range strings.Split(*skip, ",") {
+			if t != "" && strings.Contains(ops[i].Name, t) {
+				keep = false
 			}
 		}
 		if keep {
@@ -416,7 +515,14 @@ func cmdFree(args []string) {
 	}
 	enc := json.NewEncoder(os.Stdout)
 	for r := 1; r <= *runs; r++ {
-		_ = enc.Encode(runFree(r, *n, *m, seed, ref, menu, argList))
+		sub := menu
+		if *pick > 0 {
+			sub = nil
+			for i := 0; i < *pick; i++ {
+				sub = append(sub, menu[(int(seed%1000)+(r-1)**pick+i)%len(menu)])
+			}
+		}
+		_ = enc.Encode(runFree(r, *n, *m, seed, ref, sub, argList))
 	}
 }
 
